@@ -369,6 +369,10 @@ pub struct IQLEngine {
     /// Maximum result rows returned per query (0 = unlimited)
     max_result_rows: usize,
 
+    /// Relations holding magic-set seed facts injected into `input_tuples` by the
+    /// run in progress; they are removed again when the run ends
+    magic_seed_relations: Vec<String>,
+
     /// Maximum query cost score (0 = unlimited). Queries exceeding this
     /// are rejected before DD execution.
     max_query_cost: u64,
@@ -405,6 +409,7 @@ impl IQLEngine {
             semiring_annotations: Vec::new(),
             num_workers: 1,
             max_result_rows: 0,
+            magic_seed_relations: Vec::new(),
             max_query_cost: 0,
             shared_input: None,
             hnsw_search_fn: None,
@@ -426,6 +431,7 @@ impl IQLEngine {
             semiring_annotations: Vec::new(),
             num_workers: 1,
             max_result_rows: 0,
+            magic_seed_relations: Vec::new(),
             max_query_cost: 0,
             shared_input: None,
             hnsw_search_fn: None,
@@ -758,6 +764,9 @@ impl IQLEngine {
 
             // Inject magic seed facts into input_tuples
             for (magic_rel, seed_tuples) in magic_seeds {
+                if !self.magic_seed_relations.contains(&magic_rel) {
+                    self.magic_seed_relations.push(magic_rel.clone());
+                }
                 self.input_tuples
                     .entry(magic_rel)
                     .or_default()
@@ -1598,6 +1607,33 @@ impl IQLEngine {
     /// relation results computed during evaluation. This is used by the provenance
     /// system to avoid expensive re-derivation during backward chaining.
     pub fn execute_tuples_profiled(
+        &mut self,
+        source: &str,
+    ) -> Result<
+        (
+            Vec<Tuple>,
+            HashMap<String, Vec<Tuple>>,
+            Option<execution::TimingBreakdown>,
+        ),
+        String,
+    > {
+        // Magic-set seeds are facts of this run only. Left in the engine's facts
+        // they change what a later program on the same engine returns, and they
+        // show up as base facts nobody inserted.
+        self.remove_magic_seeds();
+        let outcome = self.run_tuples_profiled(source);
+        self.remove_magic_seeds();
+        outcome
+    }
+
+    /// Remove the magic-set seed relations injected by a run
+    fn remove_magic_seeds(&mut self) {
+        for relation in std::mem::take(&mut self.magic_seed_relations) {
+            self.input_tuples.remove(&relation);
+        }
+    }
+
+    fn run_tuples_profiled(
         &mut self,
         source: &str,
     ) -> Result<
